@@ -226,6 +226,7 @@ func c02(ctx *core.Ctx) {
 		r := ctx.Rand(ti, "table")
 		o := fullGenOpts(router)
 		o.OddMethods = true
+		o.Twins = true
 		switch ti % 40 {
 		case 9:
 			o.MaxRoutes, o.MaxSvcs = 60, 4 // "template/route counts may be arbitrary"
